@@ -74,6 +74,16 @@ def reviewed : List (String × String × String × String × Class) := [
   ("types", "init", "envRead", "os.UserHomeDir", .nodeConfig)
 ]
 
+/-- hand-reviewed uses of a clock / random / environment source as a function VALUE (`Gen.C17.valueSites`), with the reason -/
+def valueReviewed : List (String × String × String × String × String) := [
+  ("app", "App.RegisterTendermintService", "timeNow", "github.com/cosmos/cosmos-sdk/baseapp.BaseApp.Query (function value)",
+    "the node's ABCI Query entry point handed to the CometBFT gRPC service at start-up: it serves queries and is never part of block execution")
+]
+
+/-- a function-value use is admissible only in the node wiring of package `app`, and only when reviewed -/
+def valueCovered (s : Site) : Bool :=
+  s.pkg == "app" && valueReviewed.any (fun r => r.1 == s.pkg && r.2.1 == s.func && r.2.2.1 == s.kind && r.2.2.2.1 == s.expr)
+
 def classify (s : Site) : Option Class :=
   (reviewed.find? (fun r => r.1 == s.pkg && r.2.1 == s.func && r.2.2.1 == s.kind && r.2.2.2.1 == s.expr)).map (·.2.2.2.2)
 
